@@ -341,12 +341,30 @@ func exec(op string) (string, string) {
 		return "err:" + cls, "err-" + cls + "+" + gtag
 	}
 	id := tx.Hash()
+	show := func() string {
+		return fmt.Sprintf("%s %d %s %s %s %s", hexs(proof.MerkleProof), proof.TxIndexInBlock,
+			hexs(proof.BitcoinHeaders), hexs(proof.CoinbasePreimage[:]), hexs(proof.CoinbaseProof), hexs(id[:]))
+	}
+	snapshot := show()
+	// A second assembly (another transaction of another chain, as a maintainer proving
+	// consecutive transactions does) while the first proof is still held: the first proof is
+	// re-inspected and verified only AFTER it.
+	counts2 := append([]int{}, counts...)
+	counts2 = append(counts2, 3, 2)
+	s2, target2 := build(seed+1, len(counts2)-2, 1, counts2)
+	s2.tip0 = len(counts2) - 1
+	_, _, _ = bitcoin.AssembleSpvProof(target2, 2, s2)
+	s3, target3 := build(seed+2, 0, 0, counts2)
+	s3.tip0 = len(counts2) - 1
+	_, _, _ = bitcoin.AssembleSpvProof(target3, uint(len(counts2)), s3)
 	v := 0
 	if verify(target[:], req, proof) {
 		v = 1
 	}
-	obs := fmt.Sprintf("ok %s %d %s %s %s %s V=%d", hexs(proof.MerkleProof), proof.TxIndexInBlock,
-		hexs(proof.BitcoinHeaders), hexs(proof.CoinbasePreimage[:]), hexs(proof.CoinbaseProof), hexs(id[:]), v)
+	obs := fmt.Sprintf("ok %s V=%d", show(), v)
+	if show() != snapshot {
+		obs += " ALIASED"
+	}
 	tag := "ok+" + gtag
 	if txPos == 0 {
 		tag += "+coinbase"
